@@ -27,4 +27,6 @@ def obligations(tier):
         Ob('E.access', 'E', 'list_snapshots/list_files/restore/delete outputs per viewer follow the key relationships', '8 ownership sets x 3 viewers x 16 extra commands = 384',
            [F['ls'], F['lf'], F['rs'], F['del'], F['load']], module=H6, func='e_access', timeout=900, shards=4),
         Ob('E.unlock', 'E', 'unlock succeeds iff key file and password belong together', '3 keys x 3 passwords', [F['ul'], F['ik']], module=H6, func='e_unlock', timeout=300),
+        Ob('E.unlock64', 'E', 'blake2b user KDF with a 64-byte password: near-miss passwords (changed, shorter, longer with the same first 64 bytes) never unlock', '2 key kinds x 6 candidates',
+           [F['ul'], F['ik'], 'replicat.utils.adapters:blake2b.derive'], module=H6, func='e_unlock_long', timeout=300),
     ] + obs
